@@ -46,6 +46,22 @@ def limit_cond(g, d, cls):
     if lt is None: return None
     op, x, lim = lt
     shape = G.quantity_shape(x)
+    if shape[0] == 'plain':
+        # `++depth; if (depth > max)`: the increment stands as its own statement directly before the test (only statements, no
+        # other branch, between them): the compared value is the new depth, as with `++depth > max`
+        cur = d; hops = 0
+        while hops < 4:
+            preds = [p for p in cur.pred if p.kind != 'join' or True]
+            if len(cur.pred) != 1: break
+            cur = cur.pred[0]; hops += 1
+            if cur.kind in ('join', 'edge'): continue
+            if cur.kind != 'stmt' or not isinstance(cur.ast, dict): break
+            inc = False
+            for y in A.walk_no_lambda(cur.ast):
+                if y.get('k') == 'UnaryOperator' and y.get('op') == '++' and A.ref_name(y.get('sub')) == shape[1]: inc = True
+                if y.get('k') == 'CompoundAssignOperator' and y.get('op') == '+=' and A.ref_name(y.get('lhs')) == shape[1] and A.const(y.get('rhs')) == 1: inc = True
+            if inc: shape = ('preinc', shape[1]); break
+            if any(y.get('k') in ('MemberExpr', 'DeclRefExpr') and y.get('n') == shape[1] for y in A.walk_no_lambda(cur.ast)): break
     # which edge is the reject edge?  `X op L` true -> reject for > >= ; for < <= the false edge rejects
     reject_label = True
     if op in ('<', '<='):
